@@ -2,7 +2,7 @@
 use super::gen::*;
 use super::scen::small_logical;
 use crate::common::{block_on, catch, cname, comp_from_name, COMPS};
-use crate::env::{DefaultChooser, Handle};
+use crate::env::{Chooser, DefaultChooser, Handle, Uniform};
 use crate::model::*;
 use crate::report::Report;
 use pmtiles2::{Compression, PMTiles};
@@ -11,18 +11,29 @@ use serde_json::{json, Value};
 
 const POSITIONS: [u64; 9] = [0, 1, 10, 126, 127, 128, 4096, 16_384, 70_000];
 const PREFILLS: [&str; 3] = ["empty", "pattern-P", "pattern-P+100000"];
+/// how the stream takes the writer's bytes: every write whole; at most 3 bytes per write call; at most 1000 bytes per
+/// call and every asynchronous call pending once first
+const SINKS: [&str; 3] = ["whole", "short-3", "short-1000+pending"];
+
+fn chooser_of(sink: &str) -> Box<dyn Chooser> {
+    match sink {
+        "short-3" => Box::new(Uniform { max: 3, pending_each: 0 }),
+        "short-1000+pending" => Box::new(Uniform { max: 1000, pending_each: 1 }),
+        _ => Box::new(DefaultChooser),
+    }
+}
 
 fn pattern(n: usize) -> Vec<u8> {
     (0..n).map(|i| (i as u32).wrapping_mul(2_654_435_761).to_le_bytes()[3] | 1).collect()
 }
 
-fn write_at(l: &Logical, api: Api, p: u64, prefill: &str) -> Result<(Vec<u8>, u64, Vec<u8>), String> {
+fn write_at(l: &Logical, api: Api, p: u64, prefill: &str, sink: &str) -> Result<(Vec<u8>, u64, Vec<u8>), String> {
     let before: Vec<u8> = match prefill {
         "empty" => Vec::new(),
         "pattern-P" => pattern(p as usize),
         _ => pattern(p as usize + 100_000),
     };
-    let h = Handle::new(before.clone(), Box::new(DefaultChooser)).at(p);
+    let h = Handle::new(before.clone(), chooser_of(sink)).at(p);
     let r = catch(|| -> std::io::Result<()> {
         match api {
             Api::Sync => {
@@ -77,9 +88,9 @@ pub fn subjects() -> Vec<(String, Logical)> {
     v
 }
 
-pub fn check_one(l: &Logical, api: Api, p: u64, prefill: &str, at_zero: &[u8]) -> Vec<(String, String)> {
+pub fn check_one(l: &Logical, api: Api, p: u64, prefill: &str, sink: &str, at_zero: &[u8]) -> Vec<(String, String)> {
     let mut bad = Vec::new();
-    let (img, pos, before) = match write_at(l, api, p, prefill) {
+    let (img, pos, before) = match write_at(l, api, p, prefill, sink) {
         Ok(x) => x,
         Err(e) => return vec![(if e.starts_with("PANIC") { "panic".into() } else { "write-fails".into() }, e)],
     };
@@ -118,7 +129,7 @@ pub fn check_one(l: &Logical, api: Api, p: u64, prefill: &str, at_zero: &[u8]) -
 
 pub fn run(tier: &str) -> i32 {
     let rep = Report::new("C18", tier, "exploration");
-    rep.rule("start positions P in {0,1,10,126,127,128,4096,16384,70000} x stream {empty (zero-extended to P), pre-filled with a position-dependent pattern of P bytes, pre-filled with P+100000 bytes} x archives {0 tiles, 3 tiles (4 compressions), leaf spill (none/gzip/zstd)} x {sync,async} writer; oracle: bytes [0,P) untouched, bytes [P,P+L) identical to the archive written at P=0, final position P+L, image[P..] opens to the logical archive; non-trivial = cases with P>0");
+    rep.rule("start positions P in {0,1,10,126,127,128,4096,16384,70000} x stream {empty (zero-extended to P), pre-filled with a position-dependent pattern of P bytes, pre-filled with P+100000 bytes} x archives {0 tiles, 3 tiles (4 compressions), leaf spill (none/gzip/zstd)} x {sync,async} writer, each also into streams that take at most 3 (small archives) or 1000 bytes per write call (asynchronous calls pending once first); oracle: bytes [0,P) untouched, bytes [P,P+L) identical to the archive written at P=0, final position P+L, image[P..] opens to the logical archive; non-trivial = cases with P>0");
     let subs = subjects();
     let mut positions: Vec<u64> = POSITIONS.to_vec();
     if rep.thorough() {
@@ -132,8 +143,13 @@ pub fn run(tier: &str) -> i32 {
         for api in APIS {
             for p in positions.iter().copied() {
                 for pf in PREFILLS {
-                    jobs.push((si, api, p, pf));
+                    jobs.push((si, api, p, pf, "whole"));
                 }
+                // fragmenting streams: 3-byte writes for the small archives, 1000-byte writes (+ Pending) for all
+                if !subs[si].0.starts_with("leaf-spill") {
+                    jobs.push((si, api, p, "pattern-P", "short-3"));
+                }
+                jobs.push((si, api, p, "pattern-P+100000", "short-1000+pending"));
             }
         }
     }
@@ -141,20 +157,21 @@ pub fn run(tier: &str) -> i32 {
     let refs: Vec<Vec<Result<Vec<u8>, String>>> = subs.iter().map(|(_, l)| APIS.iter().map(|a| write_lib(l, *a)).collect()).collect();
     let res: Vec<_> = jobs
         .par_iter()
-        .map(|(si, api, p, pf)| {
+        .map(|(si, api, p, pf, sink)| {
             let at0 = &refs[*si][if *api == Api::Sync { 0 } else { 1 }];
             match at0 {
-                Ok(a) => (*si, *api, *p, *pf, check_one(&subs[*si].1, *api, *p, pf, a)),
-                Err(e) => (*si, *api, *p, *pf, vec![("reference-write-fails".to_string(), e.clone())]),
+                Ok(a) => (*si, *api, *p, *pf, *sink, check_one(&subs[*si].1, *api, *p, pf, sink, a)),
+                Err(e) => (*si, *api, *p, *pf, *sink, vec![("reference-write-fails".to_string(), e.clone())]),
             }
         })
         .collect();
     rep.eval(jobs.len() as u64);
     rep.nontrivial(jobs.iter().filter(|j| j.2 > 0).count() as u64);
     rep.count("writes", jobs.len() as u64);
-    for (si, api, p, pf, bad) in res {
+    rep.count("writes_into_fragmenting_streams", jobs.iter().filter(|j| j.4 != "whole").count() as u64);
+    for (si, api, p, pf, sink, bad) in res {
         for (k, d) in bad {
-            rep.violation(format!("{k}/{}", api.name()), format!("[{} P={p} {pf}] {d}", subs[si].0), json!({"kind":"start-position","subject":subs[si].0,"writer":api.name(),"P":p,"prefill":pf}));
+            rep.violation(format!("{k}/{}", api.name()), format!("[{} P={p} {pf} {sink}] {d}", subs[si].0), json!({"kind":"start-position","subject":subs[si].0,"writer":api.name(),"P":p,"prefill":pf,"sink":sink}));
         }
     }
     rep.force_sample(json!({"kind":"start-position","subject":"three-tiles/gzip","writer":"sync","P":10,"prefill":"pattern-P"}));
@@ -169,7 +186,7 @@ pub fn replay(case: &Value) -> Vec<String> {
     let Some((_, l)) = subjects().into_iter().find(|s| s.0 == name) else { return vec![format!("unknown subject {name}")] };
     let pf = PREFILLS.into_iter().find(|p| Some(*p) == case["prefill"].as_str()).unwrap_or("empty");
     match write_lib(&l, api) {
-        Ok(a) => check_one(&l, api, case["P"].as_u64().unwrap_or(0), pf, &a).into_iter().map(|(k, d)| format!("{k}: {d}")).collect(),
+        Ok(a) => check_one(&l, api, case["P"].as_u64().unwrap_or(0), pf, SINKS.into_iter().find(|p| Some(*p) == case["sink"].as_str()).unwrap_or("whole"), &a).into_iter().map(|(k, d)| format!("{k}: {d}")).collect(),
         Err(e) => vec![e],
     }
 }
